@@ -9,7 +9,7 @@ namespace Driver.P13
 
 ops: `["edit",p,size,cid] ["touch",p] ["delete",p] ["checker","md5"|"ts"]
       ["forget",{"names":[t…],"sub":b,"all":b,"dd":b}] ["ignore",[t…]] ["reset",[t…]]
-      ["run",{"order":[t…],"always":b,"plan":{"<t>":{"ok":b,"writes":[[p,size,cid]…],"res":k|null}}}]`
+      ["run",{"order":[t…],"unfinished":[t…],"always":b,"plan":{"<t>":{"ok":b,"writes":[[p,size,cid]…],"res":k|null}}}]`
 
 model mode, per op: `target` (what the command resolved its arguments to), `out` (run: `[t, outcome]` in order),
 `reset` (`[t, "processed"|"skip"|"failed"|"crash"]`), `bad` (run: a task was handed over before a needed dependency),
@@ -79,6 +79,12 @@ def parseOp (dflt : Option (List Nat)) (j : Json) : Option COp :=
   | [tag, p, s, c] => if asStr tag = "edit" then some (.edit (asNat p) (asNat s) (asNat c)) else none
   | _ => none
 
+/-- `"unfinished":[t…]` of a run op: tasks that had their first `select_task` pass but no final report -/
+def unfinishedOf (j : Json) : List Nat :=
+  match asArr j with
+  | [tag, a] => if asStr tag = "run" then jnats a "unfinished" else []
+  | _ => []
+
 def targetJ : Target → Json
   | .tasks l => mkArr [Json.str "tasks", ofNats l]
   | .everything => mkArr [Json.str "everything"]
@@ -106,8 +112,8 @@ def resetTrace (fixed : Bool) (s : St) : List Nat → St × List Json
     let (s'', js) := resetTrace fixed s' rest
     (s'', mkArr [toJson t, Json.str (Driver.Status.resetObs true s t s')] :: js)
 
-def modelStep (fixed : Bool) (g : Graph) (ntasks npaths : Nat) (s : St) (o : COp) : St × Json :=
-  let s' := stepC fixed g s o
+def modelStep (fixed : Bool) (g : Graph) (ntasks npaths : Nat) (s : St) (o : COp) (unfinished : List Nat) : St × Json :=
+  let s' := stepC fixed g (stepC fixed g s o) (.firstPass unfinished)
   let extra : List (String × Json) :=
     match o with
     | .forget a dflt => [("target", targetJ (forgetTarget fixed g a dflt))]
@@ -230,11 +236,11 @@ def handle (j : Json) : Json :=
       (gh', out :: acc.2)) ((⟨[]⟩, ck), [])
     Json.mkObj [("steps", mkArr outs.reverse), ("wf", Json.bool g.WF)]
   else
-    match (jarr j "ops").mapM (parseOp dflt) with
+    match (jarr j "ops").mapM (fun x => (parseOp dflt x).map fun o => (o, unfinishedOf x)) with
     | none => Driver.err "bad op"
     | some ops =>
       let (_, outs) := ops.foldl (fun (acc : St × List Json) o =>
-        let (s', out) := modelStep fixed g ntasks npaths acc.1 o
+        let (s', out) := modelStep fixed g ntasks npaths acc.1 o.1 o.2
         (s', out :: acc.2)) (initC defs ck, [])
       Json.mkObj [("steps", mkArr outs.reverse), ("wf", Json.bool g.WF)]
 
